@@ -21,7 +21,12 @@ bool ops_misc(Ctx& c, const json& s, int idx, bool& handled) {
 				if (kind != want["kind"].get<std::string>()) { Proto::mismatch(site + "/GetResourceStream", "kind", where(name + " archives=" + std::to_string(arch) + " -> " + kind + " want " + want["kind"].get<std::string>())); return false; }
 				if (kind == "bytes" && got != content(want["blob"])) { Proto::mismatch(site + "/GetResourceStream", "bytes", where(name + " archives=" + std::to_string(arch) + " delivers the wrong source, want blob " + want["blob"].dump())); return false; } }
 			const std::string cont = Scen::str(R["containing"]); if (cont != "?") { std::string got = rm.FindContainingArchivePath(name); if ((got.empty() ? std::string() : fs::path(got).filename().string()) != cont) { Proto::mismatch(site + "/FindContainingArchivePath", "value", where(name + " -> " + got + " want " + cont)); return false; } } }
-		auto cmpList = [&](std::vector<std::string> got, const json& want, const std::string& what) { std::vector<std::string> w; for (auto& x : want) w.push_back(Scen::str(x)); std::sort(got.begin(), got.end()); std::sort(w.begin(), w.end()); if (got != w) { std::string g; for (auto& x : got) g += x + " "; std::string ww; for (auto& x : w) ww += x + " "; Proto::mismatch(site + "/" + what, "listing", where("got [" + g + "] want [" + ww + "]")); return false; } return true; };
+		auto cmpList = [&](std::vector<std::string> got, const json& want, const std::string& what, const std::string& note = "") { std::vector<std::string> w; for (auto& x : want) w.push_back(Scen::str(x)); std::sort(got.begin(), got.end()); std::sort(w.begin(), w.end()); if (got != w) { std::string g; for (auto& x : got) g += x + " "; std::string ww; for (auto& x : w) ww += x + " "; Proto::mismatch(site + "/" + what, "listing", where(note + " got [" + g + "] want [" + ww + "]")); return false; } return true; };
+		// pattern listings: the structured pattern becomes an (unanchored / anchored) regular expression on the file name
+		for (std::size_t pi = 0; pi < s["patterns"].size(); ++pi) { const json& pt = s["patterns"][pi]; std::string text; for (char ch : Scen::str(pt["text"])) { if (ch == '.') text += "[.]"; else text.push_back(ch); }
+			const std::string kind = pt["kind"]; const std::string rx = kind == "prefix" ? "^" + text : kind == "suffix" ? text + "$" : kind == "contains" ? text : "^" + text + "$";
+			if (!cmpList(rm.GetAllFilenames(rx, true), (*ans)["pats"][pi]["withArch"], "GetAllFilenames", "pattern " + rx)) return false;
+			if (!cmpList(rm.GetAllFilenames(rx, false), (*ans)["pats"][pi]["noArch"], "GetAllFilenames", "pattern " + rx + " loose only")) return false; }
 		if (!cmpList(rm.GetAllFilenamesOfType(".txt"), (*ans)["txt"], "GetAllFilenamesOfType")) return false; if (!cmpList(rm.GetAllFilenamesOfType(".txt", false), (*ans)["txtLoose"], "GetAllFilenamesOfType")) return false; if (!cmpList(rm.GetAllFilenamesOfType(".map"), (*ans)["map"], "GetAllFilenamesOfType")) return false;
 		return true; }
 	if (op == "names_rel") { for (auto& p : s["pairs"]) { const std::string a = Scen::str(p["a"]), b = Scen::str(p["b"]); bool less = StringUtility::IsEqualCaseInsensitive(a, b), eq = StringUtility::IsEqual(a, b);
@@ -77,5 +82,43 @@ bool ops_misc(Ctx& c, const json& s, int idx, bool& handled) {
 		if (wantOk) { Stream::MemoryReader r(got.data(), got.size()); r.SeekForward(3); std::vector<unsigned char> back{1, 2, 3};        // typed read is the inverse of the typed write
 			bool rr = throws([&] { if (T == "u8") r.Read<uint8_t>(back); else if (T == "i8") r.Read<int8_t>(back); else if (T == "u16") r.Read<uint16_t>(back); else if (T == "i16") r.Read<int16_t>(back); else if (T == "u32") r.Read<uint32_t>(back); else r.Read<int32_t>(back); });
 			if (rr || back != v || r.Position() != got.size()) { Proto::mismatch(site + "/" + T, "read-back", where("count " + std::to_string(n))); return false; } }
+		return true; }
+	// ---- C14 (d): Writer::Write(Reader&) copies exactly the rest of the source, for every chunk size, length, start and backend ----
+	if (op == "copy_loop" || op == "copy_big") { const bool big = op == "copy_big"; std::size_t len = s["len"], start = s["start"]; std::size_t chunk = big ? 0x20000 : s["chunk"].get<std::size_t>();
+		std::vector<unsigned char> src(len); for (std::size_t j = 0; j < len; ++j) src[j] = Scen::blob_byte(3, j);
+		std::vector<unsigned char> want; if (big) want = Scen::expand(s["segs"]); else for (auto& d : s["dest"]) want.push_back(src[d.get<std::size_t>() - 1]);
+		const std::string file = ROOT + "/src.bin"; Scen::spit(file, src);
+		// a wrapper that counts the partial reads the loop performs (the specification fixes their number)
+		struct Counting : Stream::Reader { Stream::Reader& in; long calls = 0; explicit Counting(Stream::Reader& r) : in(r) {} std::size_t ReadPartial(void* b, std::size_t n) noexcept override { ++calls; return in.ReadPartial(b, n); } void ReadImplementation(void* b, std::size_t n) override { in.Read(b, n); } };
+		auto copy = [&](Stream::Writer& w, Stream::Reader& r) { switch (chunk) { case 1: w.Write<1>(r); break; case 2: w.Write<2>(r); break; case 3: w.Write<3>(r); break; case 4: w.Write<4>(r); break; default: w.Write(r); } };
+		for (const std::string backend : {"mem", "memslice", "file", "fileslice", "sliceofslice"}) { const std::string bsite = site + "/" + backend; Proto::sanitize(Proto::g_site, sizeof Proto::g_site, bsite);
+			std::vector<unsigned char> padded; std::unique_ptr<Stream::BidirectionalReader> r;
+			if (backend == "mem") r = std::make_unique<Stream::MemoryReader>(src.data(), src.size());
+			else if (backend == "memslice") { padded.assign(3, 0xEE); padded.insert(padded.end(), src.begin(), src.end()); padded.insert(padded.end(), 5, 0xDD); Stream::MemoryReader outer(padded.data(), padded.size()); r = std::make_unique<Stream::MemoryReader>(outer.Slice(3, len)); }
+			else if (backend == "file") r = std::make_unique<Stream::FileReader>(file);
+			else { padded.assign(3, 0xEE); padded.insert(padded.end(), src.begin(), src.end()); padded.insert(padded.end(), 5, 0xDD); Scen::spit(ROOT + "/padded.bin", padded); Stream::FileReader outer(ROOT + "/padded.bin");
+				if (backend == "fileslice") r = std::make_unique<Stream::FileSliceReader>(outer.Slice(3, len)); else { auto mid = outer.Slice(1, len + 4); r = std::make_unique<Stream::FileSliceReader>(mid.Slice(2, len)); } }
+			r->Seek(start); Counting counted(*r); Stream::DynamicMemoryWriter w;
+			if (throws([&] { copy(w, counted); })) { Proto::mismatch(bsite, "refused-should-accept", where("")); return false; }
+			auto got = dyn_bytes(w); if (got != want) { Proto::mismatch(bsite, "bytes", where("len " + std::to_string(len) + " chunk " + std::to_string(chunk) + " start " + std::to_string(start) + " " + Scen::hexdiff(got, want))); return false; }
+			if (r->Position() != len) { Proto::mismatch(bsite, "source-position", where("position " + std::to_string((long long)r->Position()) + " want " + std::to_string(len))); return false; }
+			if (!big && counted.calls != s["reads"].get<long>()) { Proto::mismatch(bsite, "read-count", where(std::to_string(counted.calls) + " partial reads, want " + s["reads"].dump())); return false; }
+			// the same copy into a file writer leaves exactly those bytes on disk
+			if (backend == "mem" || big) { r->Seek(start); { Stream::FileWriter fw(ROOT + "/dst.bin"); copy(fw, *r); } if (Scen::slurp(ROOT + "/dst.bin") != want) { Proto::mismatch(bsite, "file-bytes", where("")); return false; } } }
+		return true; }
+	// ---- C14 (e): FileWriter creates, refuses, truncates, or preserves and appends exactly as its open flags say -----------------------
+	if (op == "file_open") { const std::string state = s["state"]; const int flags = s["flags"]; const int k = s["writes"]; const bool wantRefused = s["expect"] == "refused";
+		std::string path = ROOT + "/f.bin"; auto old = raw(s["old"]);
+		if (state == "file") Scen::spit(path, old); else if (state == "dir") fs::create_directories(path); else if (state == "noparent") path = ROOT + "/missing/f.bin";
+		const std::string fsite = site + "/" + state; Proto::sanitize(Proto::g_site, sizeof Proto::g_site, fsite);
+		bool refused = false;
+		try { Stream::FileWriter w(path, static_cast<Stream::FileWriter::OpenMode>(flags)); for (int i = 1; i <= k; ++i) { unsigned char c[2] = {(unsigned char)(100 + 2 * i - 1), (unsigned char)(100 + 2 * i)}; w.Write(c, 2); } }
+		catch (const std::exception&) { refused = true; }
+		auto note = [&] { return where("state " + state + " flags " + std::to_string(flags) + " writes " + std::to_string(k)); };
+		if (refused != wantRefused) { Proto::mismatch(fsite, refused ? "refused-should-accept" : "accepted-should-refuse", note()); return false; }
+		if (state == "dir") { if (!fs::is_directory(path)) { Proto::mismatch(fsite, "directory-altered", note()); return false; } return true; }
+		const bool exists = fs::is_regular_file(path);
+		if (exists != s["existsAfter"].get<bool>()) { Proto::mismatch(fsite, refused ? "refused-open-created-or-removed-the-file" : "not-created", note()); return false; }
+		if (exists && !s["unspecified"].get<bool>()) { auto got = Scen::slurp(path), want = raw(s["final"]); if (got != want) { Proto::mismatch(fsite, refused ? "refused-open-altered-the-file" : "content", note() + " " + Scen::hexdiff(got, want)); return false; } }
 		return true; }
 	OPS_EPILOGUE }
